@@ -159,3 +159,391 @@ void h_exclude(void) {
     VACUITY_END();
 }
 #endif
+
+#ifdef LOOKUP
+/* ---- lookup<OpInsert> (find / count / insert / emplace): the control flow over ONE bucket under its rw lock; rely/guarantee over the bucket lock, the bucket's chain
+   (abstracted to: "is the key in the chain, and which node carries it"), the element lock and the ownership of the node this call allocated or was handed.
+   rely: other threads change a bucket's chain only while holding its WRITER lock, so the chain is fixed during one tenure (one uninterrupted holding) of this thread;
+   between tenures anything may happen (insert, erase, rehash): the chain abstraction is havocked at every acquisition and at every non-atomic upgrade / downgrade. ---- */
+#undef ATOMIC_LOAD
+typedef struct node { struct node *next; } node; typedef node node_base;
+typedef struct hbucket { node_base *node_list; } hbucket;
+typedef int key_type; typedef int mapped_type;
+struct chm { hashcode_type my_mask; size_t my_size; };
+struct bucket_accessor { hbucket *my_b; };
+struct const_accessor { node *my_node; hashcode_type my_hash; };
+static node NODE_K, NODE_NEW; static hbucket BKT;   /* NODE_K: THE node that carries the key when the locked bucket has one; NODE_NEW: the node this call owns */
+#define IS_VALID(p) ((uintptr_t)(p) > (uintptr_t)63)
+/* ghost */
+hashcode_type g_h, g_bkt_idx;
+int g_b_mode;                                   /* bucket lock held by this thread: 0 none, 1 reader, 2 writer */
+unsigned g_tenure, g_found_tenure, g_race_tenure;
+node *g_key_node;                               /* the node carrying the key in the locked bucket's chain during the current tenure; NULL: the key is absent */
+bool g_fresh;                                   /* g_key_node was linked by this call during the current tenure: no other thread can have reached it */
+bool g_have_node;                               /* this call owns NODE_NEW: allocated or handed in, neither linked nor freed yet */
+unsigned g_allocs, g_linked, g_deleted, g_enabled; segment_index_type g_claimed;
+int g_elem_mode; node *g_elem_node;             /* element lock held through *result: 0 none, 1 reader, 2 writer */
+bool g_race_result;
+bool g_rel_done; node *g_rel_key; bool g_rel_race_ok;   /* snapshot taken when the bucket lock is given back */
+static hashcode_type any_mask(void) { hashcode_type m = nondet_size_t(); __CPROVER_assume((m & (m + 1)) == 0 && m >= 1); return m; }
+#define ATOMIC_LOAD(f) any_mask()          /* rely: my_mask only takes values 2^k-1; every load may see any of them */
+static hashcode_type STUB_hash(key_type k) { return g_h; }
+static bool STUB_check_rehashing_collision(struct chm *self, hashcode_type h, hashcode_type m_old, hashcode_type m) { return nondet_bool(); }
+static void new_tenure(void) { g_tenure++; g_key_node = nondet_bool() ? &NODE_K : NULL; g_fresh = false; }
+static void BA_ctor(struct bucket_accessor *b, struct chm *self, hashcode_type idx, bool writer) {
+    __CPROVER_assert(g_b_mode == 0, "C10.lookup: one bucket lock at a time");
+    b->my_b = &BKT; g_bkt_idx = idx; g_b_mode = (writer || nondet_bool()) ? 2 : 1;   /* a bucket that had to be rehashed is returned write-locked */
+    new_tenure();
+}
+static void BA_release(struct bucket_accessor *b) {
+    __CPROVER_assert(g_b_mode != 0, "C10.lookup: the bucket lock is released only when held");
+    g_rel_done = true; g_rel_key = g_key_node; g_rel_race_ok = (g_race_tenure == g_tenure && !g_race_result); g_b_mode = 0;
+}
+static void BA_dtor(struct bucket_accessor *b) { if (g_b_mode != 0) BA_release(b); }   /* ~scoped_lock: releases if still held */
+static hbucket *BA_bucket(struct bucket_accessor *b) { return b->my_b; }
+static bool BA_is_writer(struct bucket_accessor *b) { return g_b_mode == 2; }
+static bool BA_upgrade_to_writer(struct bucket_accessor *b) {
+    __CPROVER_assert(g_b_mode == 1, "C10.lookup: upgrade from reader");
+    g_b_mode = 2;
+    if (nondet_bool()) return true;
+    new_tenure(); return false;      /* contended: the lock was dropped and re-acquired; another writer may have changed the chain */
+}
+static bool BA_downgrade_to_reader(struct bucket_accessor *b) {
+    __CPROVER_assert(g_b_mode == 2, "C10.lookup: downgrade from writer");
+    g_b_mode = 1;
+    if (nondet_bool()) return true;
+    new_tenure(); return false;
+}
+static node *STUB_search_bucket(struct chm *self, key_type key, hbucket *bk) {
+    __CPROVER_assert(g_b_mode != 0 && bk == &BKT, "C10.lookup: a chain is walked only under its bucket's lock");
+    g_found_tenure = g_tenure; return g_key_node;      /* contract of search_bucket (job search.bucket): the node with an equal key, NULL iff there is none */
+}
+static node *STUB_allocate_node(struct chm *self, key_type key, const mapped_type *t) {
+    __CPROVER_assert(!g_have_node, "C10.insert: a second node is never allocated while this call still owns one (no leak)");
+    g_have_node = true; g_allocs++; return &NODE_NEW;
+}
+static segment_index_type STUB_insert_new_node(struct chm *self, hbucket *bk, node *n, hashcode_type mask) {
+    __CPROVER_assert(g_b_mode == 2 && bk == &BKT, "C10.insert: a node is linked only under the bucket's WRITER lock");
+    __CPROVER_assert(g_found_tenure == g_tenure && g_key_node == NULL, "C10.insert: the node is linked only if the key is absent from the chain at that moment, as established by a search during the current holding of the lock "
+                     "(re-searched after a non-atomic upgrade): of several concurrent inserts of an absent key exactly one links its node");
+    __CPROVER_assert(g_race_tenure == g_tenure && !g_race_result, "C10.insert: the node is linked only after the mask race was checked during the current holding of the lock and no rehashing collision was found: the locked bucket still is the key's bucket (no key is lost or duplicated while the table grows)");
+    __CPROVER_assert(g_have_node && n == &NODE_NEW, "C10.insert: the node linked is the one this call allocated or was handed");
+    g_have_node = false; g_linked++; g_key_node = n; g_fresh = true;
+    segment_index_type seg = nondet_size_t(); if (seg) g_claimed = seg; return seg;
+}
+static void STUB_delete_node(struct chm *self, node *n) {
+    __CPROVER_assert(g_have_node && n == &NODE_NEW, "C10.insert: only a node this call owns and did not link is freed, and only once");
+    g_have_node = false; g_deleted++;
+}
+static void STUB_enable_segment(struct chm *self, segment_index_type k) {
+    __CPROVER_assert(k != 0 && k == g_claimed && g_enabled == 0, "C10.grow: enable_segment is called only for the segment whose table entry this call claimed in insert_new_node, and once");
+    g_enabled++;
+}
+static bool ACC_try_acquire(struct const_accessor *a, node *n, bool write) {
+    __CPROVER_assert(g_elem_mode == 0, "C10.accessor: the accessor holds no other element");
+    __CPROVER_assert(g_b_mode != 0, "C10.accessor: the element lock is taken while the bucket lock is still held: the element cannot have been unlinked and destroyed in between");
+    __CPROVER_assert(n != NULL && n == g_key_node && g_found_tenure == g_tenure, "C10.accessor: the element locked is the key's node as found (or linked) during the current holding of the bucket lock");
+    bool ok = (g_fresh && n == &NODE_NEW) ? true : nondet_bool();   /* rely: an element's lock is taken only by threads that hold its bucket's lock or already hold the element */
+    if (ok) { g_elem_mode = write ? 2 : 1; g_elem_node = n; }
+    return ok;
+}
+static bool STUB_bounded_pause(void) { return nondet_bool(); }
+#define CHECK_MASK_RACE(self, hh, mp) ({ __CPROVER_assert(g_b_mode != 0 && (hh) == g_h && g_bkt_idx == ((hh) & *(mp)), "C10.lookup: the mask race is checked under the bucket lock and against the mask under which the locked bucket was chosen"); \
+    bool r_ = check_mask_race((self), (hh), (mp)); g_race_tenure = g_tenure; g_race_result = r_; r_; })
+/* goto restart: the state at the jump must lie in the set of states the harness starts from (which is closed under restarts); then the path ends */
+#define CUT_restart() do { __CPROVER_assert(g_b_mode == 0 && g_elem_mode == 0 && result_is_clean(result) && g_linked == 0 && g_claimed == 0 && grow_segment == 0 && (m & (m + 1)) == 0 \
+    && g_have_node == (tmp_n != NULL) && (tmp_n == NULL || tmp_n == &NODE_NEW), \
+    "C10.lookup: a restart begins from a state the entry explores: no bucket or element lock held, accessor empty, nothing linked, the node owned by this call (if any) still in tmp_n, m a mask"); __CPROVER_assume(0); } while (0)
+static bool result_is_clean(struct const_accessor *a) { return a == NULL || a->my_node == NULL; }
+#define LOOP_lookup_1 __CPROVER_assigns(n, g_b_mode, g_tenure, g_key_node, g_fresh, g_found_tenure) \
+    __CPROVER_loop_invariant((g_b_mode == 1 || g_b_mode == 2) && n == NULL && g_key_node == NULL && g_found_tenure == g_tenure && !g_fresh)
+#define LOOP_lookup_2 __CPROVER_assigns(m, g_b_mode, g_elem_mode, g_elem_node, g_rel_done, g_rel_key, g_rel_race_ok) \
+    __CPROVER_loop_invariant(g_b_mode != 0 && g_elem_mode == 0)
+#include "lookup.inc"
+#ifndef OPINSERT
+#define OPINSERT 1
+#endif
+void h_lookup(void) {
+    struct chm m; struct const_accessor A; A.my_node = NULL; A.my_hash = nondet_size_t();
+    g_h = nondet_size_t(); g_b_mode = 0; g_tenure = nondet_unsigned(); __CPROVER_assume(g_tenure < 1000); g_found_tenure = g_race_tenure = 0; g_race_result = nondet_bool();
+    g_key_node = NULL; g_fresh = false; g_allocs = g_linked = g_deleted = g_enabled = 0; g_claimed = 0; g_elem_mode = 0; g_elem_node = NULL; g_rel_done = false; g_rel_key = NULL; g_rel_race_ok = false;
+    /* entry states, closed under `goto restart`: for insert/emplace the call may already own a node (handed in by emplace, or allocated before a restart) */
+    node *tmp = (OPINSERT && nondet_bool()) ? &NODE_NEW : NULL; g_have_node = tmp != NULL;
+    struct const_accessor *res = nondet_bool() ? &A : NULL; bool write = nondet_bool(); mapped_type val = nondet_int();
+    bool r = lookup(&m, OPINSERT, nondet_int(), &val, res, write, tmp);
+    OBLIGATION(g_b_mode == 0 && g_rel_done, "C10.lookup: the bucket lock is released on every path");
+    OBLIGATION(!g_have_node, "C10.insert: a node that was allocated (or handed in) but not inserted is freed exactly once");
+    OBLIGATION(g_linked <= 1 && g_allocs <= 1, "C10.insert: at most one node is allocated and linked per call");
+    if (OPINSERT) {
+        OBLIGATION(r == (g_linked == 1), "C10.insert: insert returns true exactly when this call linked its node");
+        if (!r) OBLIGATION(g_rel_key == &NODE_K, "C10.insert: insert returns false only if the key's node was found in the bucket under its lock");
+    } else {
+        OBLIGATION(g_linked == 0 && g_allocs == 0 && g_deleted == 0 && g_claimed == 0 && g_enabled == 0, "C10.find: find / count change nothing");
+        if (r) OBLIGATION(g_rel_key == &NODE_K, "C10.find: find returns true only if the key's node was found in the bucket under its lock");
+        else OBLIGATION(g_rel_key == NULL && g_rel_race_ok, "C10.find: find reports the key absent only if it is absent from the locked bucket's chain and the mask race check made during that holding of the lock found no rehashing collision "
+                        "(the locked bucket still is the key's bucket): a find issued after an insert completed succeeds");
+    }
+    if (res != NULL && (r || OPINSERT)) {
+        OBLIGATION(A.my_node != NULL && A.my_node == g_rel_key && A.my_hash == g_h, "C10.accessor: the accessor returned points to the key's element and remembers the key's hash");
+        OBLIGATION(g_elem_node == A.my_node && g_elem_mode == (write ? 2 : 1), "C10.accessor: the element's lock is held in the requested mode (exclusive for accessor, shared for const_accessor) when the accessor is attached");
+    } else
+        OBLIGATION(g_elem_mode == 0 && A.my_node == NULL, "C10.accessor: no element lock is held and no accessor is attached when none was asked for or the key is absent");
+    VACUITY_END();
+}
+#endif
+
+#ifdef CHAIN
+/* ---- search_bucket / add_to_bucket / rehash_bucket over a chain of ANY length (loop contracts).  Per-index representation: the chain locked at entry consists of nodes 0..n-1 in
+   list order; node i is THE i-th node (pairwise distinct by construction), its pointer is the integer (i+1)<<6, its attributes live in arrays (hash value of its key, "its key equals the
+   searched key"), its `next` field is "successor in the original order" until the sliced code writes it.  Facts are stated about an arbitrary ghost node g_k instead of quantifiers. ---- */
+typedef struct node node; typedef node node_base;
+typedef struct hbucket { node_base *node_list; } hbucket;
+typedef size_t key_type;                       /* a key is named by the node that carries it */
+struct chm { int unused; };
+struct bucket_accessor { hbucket *my_b; };
+#define NMAX ((size_t)1 << 12)
+static size_t g_n; static uintptr_t *g_wr; static hashcode_type *g_hv; static bool *g_eq; size_t g_k;
+static size_t g_water;                         /* 1 + the largest node index whose next field was read or written so far: nodes at or above it still have their original successor */
+static hbucket OLD, NEW; int g_b_mode; hashcode_type g_hash, g_mask, g_parent; bool g_mk; unsigned g_moved_k; node_base *g_unlinked;
+#define NODEPTR(i) ((node_base *)(((uintptr_t)(i) + 1) << 6))
+#define TIDX(p) ((size_t)(((uintptr_t)(p)) >> 6) - 1)
+#define IS_VALID(p) ((uintptr_t)(p) > (uintptr_t)63)
+#define IS_NODE(p) ((((uintptr_t)(p)) & 63) == 0 && (uintptr_t)(p) >= 64 && TIDX(p) < g_n)
+#define PRISTINE(i) ((i) + 1 < g_n ? NODEPTR((i) + 1) : (node_base *)NULL)
+#define NX(i) (((i) >= g_water || g_wr[i] == 0) ? PRISTINE(i) : (node_base *)(g_wr[i] - 1))      /* current `next` of node i */
+#define CIDX(p) ((p) == NULL ? g_n : TIDX(p))
+#define MAPS(i) ((g_hv[i] & g_mask) == g_hash)
+static node_base *node_next(node_base *p) {
+    __CPROVER_assert(IS_NODE(p), "C10.chain: only nodes of the locked chain are dereferenced");
+    size_t i = TIDX(p); if (i >= g_water) { g_wr[i] = 0; g_water = i + 1; }
+    return NX(i);
+}
+static void node_next_set(node_base *p, node_base *v) {
+    __CPROVER_assert(IS_NODE(p), "C10.chain: only nodes of the locked chains are written");
+    size_t i = TIDX(p);
+    if (p == g_unlinked)       /* add_to_bucket: the node just taken out of the parent is pushed in front of the new bucket's chain */
+        __CPROVER_assert(v == NEW.node_list, "C10.rehash: the moved node is linked in front of the new bucket's chain: no node already moved is dropped");
+    else {                     /* a link inside the parent's chain is redirected */
+        __CPROVER_assert(g_b_mode == 2, "C10.rehash: the parent's chain is changed only under the parent's WRITER lock (other threads may be reading it under the reader lock)");
+        node_base *x = NX(i);
+        __CPROVER_assert(g_unlinked == NULL && IS_NODE(x) && v == NX(TIDX(x)), "C10.rehash: the link redirected pointed to the node being moved and now points to that node's successor: exactly one node leaves the parent's chain");
+        g_unlinked = x;
+    }
+    if (i >= g_water) g_water = i + 1;
+    g_wr[i] = (uintptr_t)v + 1;
+}
+static size_t node_key(node_base *p) { __CPROVER_assert(IS_NODE(p), "C10.chain: only nodes of the locked chain are dereferenced"); return TIDX(p); }
+#define NODE_NEXT(p) node_next((node_base *)(p))
+#define NODE_NEXT_SET(p, v) node_next_set((node_base *)(p), (node_base *)(v))
+#define NODE_KEY(p) node_key((node_base *)(p))
+#define BKT_LOAD(b) ((b)->node_list)
+static void bkt_store(hbucket *b, node_base *v) {
+    if (b == &OLD) {
+        __CPROVER_assert(g_b_mode == 2, "C10.rehash: the parent's chain is changed only under the parent's WRITER lock (other threads may be reading it under the reader lock)");
+        node_base *x = OLD.node_list;
+        __CPROVER_assert(g_unlinked == NULL && IS_NODE(x) && v == NX(TIDX(x)), "C10.rehash: the parent's head is replaced by its own successor: exactly the head node leaves the parent's chain");
+        g_unlinked = x;
+    } else if (IS_VALID(v)) {        /* a node is pushed (the other store to the new bucket writes a flag value) */
+        __CPROVER_assert(v == g_unlinked && IS_NODE(v) && MAPS(TIDX(v)), "C10.rehash: the node added to the new bucket is the node just unlinked from the parent, and its hash maps to the new bucket under the new mask (nothing lost, nothing duplicated, nothing misplaced)");
+        __CPROVER_assert(NX(TIDX(v)) == NEW.node_list, "C10.rehash: the new head's successor is the old head: the new bucket keeps every node moved before");
+        g_unlinked = NULL; if (TIDX(v) == g_k) g_moved_k++;
+    }
+    b->node_list = v;
+}
+#define BKT_STORE(b, v) bkt_store((b), (node_base *)(v))
+static bool STUB_equal(key_type key, key_type node_key_handle) { return g_eq[node_key_handle]; }      /* user equality: an arbitrary pure predicate on the nodes' keys */
+static hashcode_type STUB_hash(key_type node_key_handle) { return g_hv[node_key_handle]; }             /* user hash: an arbitrary pure function of the nodes' keys */
+static void BA_ctor(struct bucket_accessor *b, struct chm *self, hashcode_type idx, bool writer) {
+    __CPROVER_assert(g_b_mode == 0, "C10.rehash: the parent is locked once");
+    __CPROVER_assert(idx == g_parent, "C10.rehash: the bucket locked and scanned is the parent: the new bucket's index with its topmost bit cleared");
+    b->my_b = &OLD; g_b_mode = (writer || nondet_bool()) ? 2 : 1;      /* recursion: a parent that itself needed rehashing comes back write-locked */
+}
+static void BA_dtor(struct bucket_accessor *b) { __CPROVER_assert(g_b_mode != 0, "C10.rehash: the parent's lock is released once"); g_b_mode = 0; }
+static hbucket *BA_bucket(struct bucket_accessor *b) { return b->my_b; }
+static bool BA_is_writer(struct bucket_accessor *b) { return g_b_mode == 2; }
+static bool BA_upgrade_to_writer(struct bucket_accessor *b) { __CPROVER_assert(g_b_mode == 1, "C10.rehash: upgrade from reader"); g_b_mode = 2; return nondet_bool(); }
+/* goto restart after a contended upgrade: the parent's chain may have changed; the state must be one the harness starts from: parent locked (now as writer), nothing moved yet */
+#define CUT_restart() do { __CPROVER_assert(g_b_mode == 2 && NEW.node_list == NULL && g_unlinked == NULL && g_moved_k == 0, "C10.rehash: a rescan after a contended upgrade starts with the parent write-locked and nothing moved yet"); __CPROVER_assume(0); } while (0)
+#define IMP(a, b) (!(a) || (b))
+/* loop head, c = position of curr (n at the end): every node before c was visited, and was moved iff its hash maps to the new bucket; prev is curr's predecessor in the parent's chain */
+#define LOOP_rehash_1 __CPROVER_assigns(curr, prev, OLD.node_list, NEW.node_list, g_b_mode, g_moved_k, g_unlinked, g_water, __CPROVER_object_whole(g_wr)) \
+  __CPROVER_loop_invariant((curr == NULL || IS_NODE(curr)) && g_water == CIDX(curr) && (g_b_mode == 1 || g_b_mode == 2) && IMP(g_b_mode == 1, NEW.node_list == NULL && g_moved_k == 0) && g_unlinked == NULL \
+     && (prev == NULL ? OLD.node_list == curr : (IS_NODE(prev) && TIDX(prev) < CIDX(curr) && NX(TIDX(prev)) == curr)) \
+     && (NEW.node_list == NULL || (IS_NODE(NEW.node_list) && TIDX(NEW.node_list) < CIDX(curr))) \
+     && g_moved_k == ((g_k < CIDX(curr) && g_mk) ? 1u : 0u)) \
+  __CPROVER_decreases(g_n - CIDX(curr))
+#define LOOP_search_1 __CPROVER_assigns(n, g_water, __CPROVER_object_whole(g_wr)) __CPROVER_loop_invariant((n == NULL || IS_NODE(n)) && g_water == CIDX(n) && IMP(g_k < CIDX(n), !g_eq[g_k])) __CPROVER_decreases(g_n - CIDX(n))
+#include "chain.inc"
+size_t IN_n, IN_k, IN_hash;
+static void chain_setup(void) {
+    g_n = IN_n = nondet_size_t(); __CPROVER_assume(g_n <= NMAX);
+    g_wr = malloc((g_n + 1) * sizeof(uintptr_t)); g_hv = malloc((g_n + 1) * sizeof(hashcode_type)); g_eq = malloc((g_n + 1) * sizeof(bool)); __CPROVER_assume(g_wr && g_hv && g_eq);
+    g_k = IN_k = nondet_size_t(); __CPROVER_assume(g_k < g_n); g_water = 0;
+    OLD.node_list = g_n > 0 ? NODEPTR(0) : NULL;      /* a rehashed bucket's chain ends in NULL (== empty_rehashed_flag) */
+}
+void h_search(void) {
+    struct chm m; chain_setup(); g_b_mode = 1;
+    node *r = search_bucket(&m, nondet_size_t(), &OLD);
+    if (r != NULL) OBLIGATION(IS_NODE(r) && g_eq[TIDX(r)], "C10.search: search_bucket returns only a node of the locked chain whose key equals the searched key");
+    else OBLIGATION(!g_eq[g_k], "C10.search: search_bucket returns NULL only if no node of the chain has an equal key (arbitrary node g_k)");
+    VACUITY_END();
+}
+void h_rehash(void) {
+    struct chm m; chain_setup(); g_b_mode = 0; g_moved_k = 0; g_unlinked = NULL;
+    g_hash = IN_hash = nondet_size_t(); __CPROVER_assume(g_hash > 1);
+    hashcode_type top = (hashcode_type)1 << tbb_log2(g_hash); g_parent = g_hash & ~top; g_mask = (top << 1) - 1; g_mk = MAPS(g_k);
+    NEW.node_list = (node_base *)rehash_req_flag;       /* the caller (bucket_accessor::acquire) holds the new bucket's writer lock and saw it flagged */
+    rehash_bucket(&m, &NEW, g_hash);
+    OBLIGATION(g_b_mode == 0, "C10.rehash: the parent's lock is released on return");
+    OBLIGATION(!rehash_required(NEW.node_list), "C10.rehash: on return the new bucket is marked rehashed");
+    OBLIGATION(g_moved_k == (g_mk ? 1u : 0u), "C10.rehash: every node of the parent's chain whose hash maps to the new bucket under the new mask has been moved there exactly once, and no other node has (arbitrary node g_k)");
+    OBLIGATION(g_unlinked == NULL, "C10.rehash: every node unlinked from the parent was added to the new bucket: nothing is lost");
+    VACUITY_END();
+}
+#endif
+
+#ifdef ACQ
+/* ---- bucket_accessor::acquire: rely/guarantee over ONE bucket's "rehash required" flag and its rw lock.
+   rely (flag/lock protocol of the other threads, which run this same function): the flag is only ever cleared, and only by a thread holding the bucket's WRITER lock; a bucket that is still
+   flagged is locked only through a successful try_acquire(write) by the thread that then rehashes it and clears the flag before it releases the lock; hence a try_acquire that fails on a
+   flagged bucket lost against such a rehasher, and the blocking acquire that follows is granted only after the flag was cleared.
+   guarantee (obligations below): this thread keeps its side of exactly that protocol. ---- */
+typedef struct node node; typedef node node_base;
+typedef struct hbucket { node_base *node_list; } hbucket;
+struct chm { int unused; };
+struct bucket_accessor { hbucket *my_b; };
+static hbucket BKT;
+bool g_flag;             /* the bucket is flagged "rehash required" (its node_list holds rehash_req_flag) */
+int g_mode;              /* this thread's lock on the bucket: 0 none, 1 reader, 2 writer */
+bool g_rehasher_active;  /* another thread holds the still flagged bucket: it is rehashing it */
+unsigned g_rehash_calls, g_locks; hashcode_type g_h;
+static void interfere(void) { if (g_mode == 0 && g_flag && nondet_bool()) { g_flag = false; g_rehasher_active = false; } }   /* another thread rehashed the bucket (needs its writer lock: impossible while this thread holds any lock) */
+static node_base *bkt_load(hbucket *b) {
+    __CPROVER_assert(b == &BKT, "C10.acquire: the flag read is the flag of the bucket being acquired");
+    interfere();
+    if (g_flag) return (node_base *)(size_t)3;
+    return nondet_bool() ? (node_base *)NULL : (node_base *)((uintptr_t)64 + ((uintptr_t)nondet_ushort() << 6));   /* a rehashed bucket: empty or some chain */
+}
+#define BKT_LOAD(b) bkt_load(b)
+static hbucket *STUB_get_bucket(struct chm *base, hashcode_type h) { __CPROVER_assert(h == g_h, "C10.acquire: the bucket located is the bucket of the masked hash code passed in"); return &BKT; }
+static bool LOCK_try_acquire(struct bucket_accessor *self, hbucket *b, bool write) {
+    __CPROVER_assert(g_mode == 0 && b == &BKT, "C10.acquire: one lock, on the bucket located");
+    __CPROVER_assert(write, "C10.acquire: a bucket seen flagged is try-locked for WRITING: the thread that will rehash it excludes every other thread");
+    interfere();
+    if (g_rehasher_active || nondet_bool()) { if (g_flag) g_rehasher_active = true; return false; }      /* rely: failing on a flagged bucket means a rehasher holds it */
+    g_mode = write ? 2 : 1; g_locks++; return true;
+}
+static void LOCK_acquire(struct bucket_accessor *self, hbucket *b, bool write) {
+    __CPROVER_assert(g_mode == 0 && b == &BKT, "C10.acquire: one lock, on the bucket located");
+    interfere();
+    if (g_rehasher_active) { g_flag = false; g_rehasher_active = false; }      /* rely: granted only after the rehasher cleared the flag and released */
+    g_mode = write ? 2 : 1; g_locks++;
+}
+static void STUB_rehash_bucket(struct chm *base, hbucket *b, hashcode_type h) {
+    __CPROVER_assert(g_mode == 2 && b == &BKT && h == g_h, "C10.acquire: rehash_bucket runs under the new bucket's WRITER lock, on the bucket that was locked");
+    __CPROVER_assert(g_flag, "C10.acquire: a bucket is rehashed only if it is still flagged when re-checked under its writer lock: every bucket is rehashed exactly once");
+    g_flag = false; g_rehash_calls++;       /* contract of rehash_bucket (job rehash.bucket): marks the bucket rehashed */
+}
+#include "acquire.inc"
+void h_acquire(void) {
+    struct chm m; struct bucket_accessor a; a.my_b = NULL;
+    g_h = nondet_size_t(); g_flag = nondet_bool(); g_rehasher_active = g_flag && nondet_bool(); g_mode = 0; g_rehash_calls = 0; g_locks = 0;
+    bool writer = nondet_bool(), flag0 = g_flag;
+    BA_acquire(&a, &m, g_h, writer);
+    OBLIGATION(a.my_b == &BKT && g_locks == 1 && g_mode != 0 && (!writer || g_mode == 2), "C10.acquire: on return the bucket of h is locked exactly once, exclusively if a writer lock was requested");
+    OBLIGATION(!g_flag, "C10.acquire: on return the bucket is not flagged 'rehash required': a thread that holds a bucket lock outside the rehash itself always sees a rehashed chain");
+    OBLIGATION(g_rehash_calls <= 1 && (g_rehash_calls == 0 || (flag0 && g_mode == 2)), "C10.acquire: the bucket is rehashed at most once, only if it was flagged, and the lock is then kept as a writer lock");
+    VACUITY_END();
+}
+#endif
+
+#ifdef GROW
+/* ---- growth: insert_new_node (count, link, claim of the next segment's table entry) and enable_segment / init_buckets (allocation, table entries, mask publication) ---- */
+#undef ATOMIC_LOAD
+typedef struct node { struct node *next; } node; typedef node node_base;
+typedef struct hbucket { node_base *node_list; } hbucket;
+struct chm { hashcode_type my_mask; size_t my_size; segment_ptr_type my_table[64]; };
+static struct chm M;
+#define IS_VALID(p) ((uintptr_t)(p) > (uintptr_t)63)
+#define IS_ALLOCATING ((segment_ptr_type)2)
+#define NODE_NEXT_SET(p, v) ((p)->next = (v))
+#define BKT_LOAD(b) ((b)->node_list)
+#define BKT_STORE(b, v) ((b)->node_list = (v))
+#define IMP(a, b) (!(a) || (b))
+/* -- insert_new_node: rely/guarantee on the table entry of the segment right above the mask: NULL (disabled) -> 2 (claimed: being allocated) -> valid pointer (enabled).
+      ghost census: gClaim = number of threads that have claimed the entry and not yet enabled the segment, meClaim = this thread is one of them -- */
+segment_index_type g_seg; unsigned long gClaim; bool meClaim; unsigned g_size_inc;
+#define INV_T (gClaim <= 1 && ((M.my_table[g_seg] == IS_ALLOCATING) == (gClaim == 1)) && gClaim >= (unsigned long)meClaim \
+               && (M.my_table[g_seg] == NULL || M.my_table[g_seg] == IS_ALLOCATING || IS_VALID(M.my_table[g_seg])))
+static void interfere_ins(void) {
+    segment_ptr_type o = M.my_table[g_seg];
+    M.my_table[g_seg] = nondet_ptr(); gClaim = nondet_ulong(); M.my_size = nondet_size_t();       /* other threads insert, erase, claim, enable */
+    __CPROVER_assume(INV_T);
+    __CPROVER_assume(IMP(meClaim, M.my_table[g_seg] == IS_ALLOCATING));      /* rely: nobody touches an entry this thread has claimed */
+    __CPROVER_assume(IMP(IS_VALID(o), M.my_table[g_seg] == o));              /* rely: an enabled segment stays enabled */
+    __CPROVER_assume(IMP(o == IS_ALLOCATING, M.my_table[g_seg] != NULL));    /* rely: a claimed entry is not reset (allocation does not fail: listed assumption) */
+}
+#define ATOMIC_PREINC_AT(site, x) ({ interfere_ins(); size_t r_ = ++(x); g_size_inc++; r_; })
+#define ATOMIC_LOAD_AT(site, x) ({ interfere_ins(); (x); })
+#define ATOMIC_CAS_AT(site, x, e, d) ({ interfere_ins(); segment_ptr_type o_ = (x); bool r_ = (o_ == *(e)); \
+    __CPROVER_assert(&(x) == &M.my_table[g_seg], "C10.grow: the table entry claimed is that of the segment right above the mask the insertion ran under"); \
+    if (r_) { (x) = (d); if (o_ == NULL && (x) == IS_ALLOCATING) { gClaim++; meClaim = true; } } else *(e) = o_; \
+    __CPROVER_assert(INV_T, "guarantee: a segment's table entry is claimed by at most one thread, and only while it is still NULL, at " #site); r_; })
+/* -- enable_segment: runs with the entry claimed, nobody else writes the table or the mask meanwhile (the next claim needs the new mask) -- */
+segment_index_type g_k; size_t g_j; bool g_is_initial; hashcode_type g_old_mask;
+bucket *g_alloc_ptr; size_t g_alloc_n; unsigned g_allocs, g_inits, g_tab_stores, g_mask_stores; bucket *g_init_ptr; size_t g_init_sz; bool g_init_flagged;
+static void table_store(size_t i, segment_ptr_type p) {
+    __CPROVER_assert(g_mask_stores == 0 && i < 64 && (g_k >= first_block ? i == g_k : (i >= embedded_block && i < first_block)), "C10.grow: only the entries of the segments being enabled are written, before the mask");
+    __CPROVER_assert(g_allocs == 1 && g_inits == 1 && g_init_ptr == g_alloc_ptr && g_init_sz == g_alloc_n && (g_is_initial || g_init_flagged),
+                     "C10.grow: a segment is published only after every bucket of its allocation was initialised - as 'rehash required' unless the table is still empty: lookups never see an uninitialised or wrongly empty bucket");
+    size_t off = g_k >= first_block ? 0 : segment_base(i) - segment_base(embedded_block);
+    __CPROVER_assert(p == g_alloc_ptr + off && off + real_size(i) <= g_alloc_n, "C10.grow: the entry of segment i points to segment_size(i) buckets of its own inside the allocation (segments do not overlap)");
+    g_tab_stores++;
+}
+static void mask_store(size_t v) {
+    segment_index_type kl = g_k >= first_block ? g_k : first_block - 1;      /* the last segment this call enables */
+    __CPROVER_assert((v & (v + 1)) == 0 && v > g_old_mask && v == segment_base(kl) + segment_size(kl) - 1, "C10.grow: the new mask has the form 2^j-1 and extends the table by exactly the whole segments just enabled");
+    __CPROVER_assert(IMP(g_j <= kl, IS_VALID(M.my_table[g_j])), "C10.grow: the mask is published after the table entry of every segment it covers (arbitrary segment g_j)");
+    g_mask_stores++;
+}
+#define ATOMIC_STORE_AT(site, x, v) ({ if ((void *)&(x) == (void *)&M.my_mask) mask_store((size_t)(v)); else table_store((size_t)((segment_ptr_type *)(void *)&(x) - M.my_table), (segment_ptr_type)(v)); (x) = (v); (void)0; })
+static segment_ptr_type STUB_allocate_buckets(struct chm *self, size_t n) {
+    __CPROVER_assert(g_allocs == 0, "C10.grow: one allocation per enable_segment");
+    __CPROVER_assume(n >= 1 && n <= ((size_t)1 << 41));       /* CBMC object-size bound, stated */
+    g_alloc_ptr = malloc(n * sizeof(bucket)); __CPROVER_assume(g_alloc_ptr != NULL); g_alloc_n = n; g_allocs++; return g_alloc_ptr;
+}
+static void STUB_init_buckets_impl(struct chm *self, segment_ptr_type ptr, size_t sz, bool has_arg, node_base *arg) {
+    g_init_ptr = ptr; g_init_sz = sz; g_init_flagged = has_arg && (void *)arg == (void *)(size_t)3; g_inits++;      /* constructs sz buckets at ptr, each with node_list = arg (NULL if none) */
+}
+#define LOOP_ens_1
+#include "grow.inc"
+size_t IN_seg, IN_k, IN_j;
+static void havoc_M(void) { struct chm fresh; M = fresh; }
+void h_insert_new_node(void) {
+    havoc_M(); g_seg = IN_seg = nondet_size_t(); __CPROVER_assume(g_seg >= 1 && g_seg <= 62);
+    hashcode_type mask = ((hashcode_type)1 << g_seg) - 1;        /* a value of my_mask: 2^j-1; the segment right above it is j */
+    OBLIGATION(segment_base(g_seg) == mask + 1, "C10.lemma: segment j starts at bucket 2^j = mask + 1");
+    __CPROVER_assume(IS_VALID(M.my_table[g_seg - 1]));           /* the mask was published after the entries of the segments it covers (guarantee of enable_segment) */
+    gClaim = nondet_ulong(); meClaim = false; g_size_inc = 0; __CPROVER_assume(INV_T);
+    hbucket B; node N, HEAD0; node_base *head0 = nondet_bool() ? &HEAD0 : NULL; B.node_list = head0; N.next = &N;
+    segment_index_type r = insert_new_node(&M, &B, &N, mask);
+    interfere_ins();
+    OBLIGATION(g_size_inc == 1, "C10.grow: my_size is incremented exactly once per linked node");
+    OBLIGATION(B.node_list == &N && N.next == head0, "C10.grow: the node is linked at the head of the bucket's chain and the old chain follows it: no node is dropped");
+    OBLIGATION(r == 0 || (r == g_seg && meClaim && M.my_table[g_seg] == IS_ALLOCATING),
+               "C10.grow: a segment index is returned for enabling only if it is the segment right above the mask and this call claimed its table entry (NULL -> allocating); at most one thread holds that claim, so a segment is allocated and published once");
+    VACUITY_END();
+}
+void h_enable_segment(void) {
+    havoc_M(); g_k = IN_k = nondet_size_t(); __CPROVER_assume((g_k == embedded_block || g_k >= first_block) && g_k <= 40);
+    g_is_initial = nondet_bool(); g_j = IN_j = nondet_size_t(); __CPROVER_assume(g_j < 64);
+    M.my_mask = g_old_mask = segment_base(g_k) - 1;              /* the entry was claimed under this mask, and the mask cannot change before this call publishes the next one */
+    __CPROVER_assume(M.my_table[g_k] == IS_ALLOCATING || M.my_table[g_k] == NULL);    /* claimed by insert_new_node, or still disabled (reserve / rehash, not concurrent) */
+    __CPROVER_assume(IMP(g_j < g_k, IS_VALID(M.my_table[g_j])));  /* segments below are enabled (instance of the table invariant at the ghost segment) */
+    g_allocs = g_inits = g_tab_stores = g_mask_stores = 0; g_alloc_ptr = NULL; g_init_ptr = NULL;
+    enable_segment(&M, g_k, g_is_initial);
+    OBLIGATION(g_mask_stores == 1 && M.my_mask > g_old_mask, "C10.grow: enable_segment publishes exactly one new, larger mask");
+    OBLIGATION(g_tab_stores == (g_k >= first_block ? 1u : (unsigned)(first_block - embedded_block)), "C10.grow: every segment covered by the new mask got its table entry");
+    VACUITY_END();
+}
+#endif
